@@ -108,11 +108,16 @@ def render(m):
     return [("ns", "android", AND, [("el", None, "manifest", root_attrs, kids)])]
 
 
-def build(m):
+def render_axml(m):
     from tools.writers import axmlwriter as W
     raw, _ = W.build(render(m), utf8=False, resmap={"versionCode": 0x0101021B, "versionName": 0x0101021C, "name": 0x01010003, "label": 0x01010001,
                                                   "minSdkVersion": 0x0101020C, "targetSdkVersion": 0x01010270, "maxSdkVersion": 0x01010271,
                                                   "enabled": 0x0101000E})
+    return raw
+
+
+def build(m):
+    raw = render_axml(m)
     bio = io.BytesIO()
     with zipfile.ZipFile(bio, "w") as zf:
         zf.writestr("AndroidManifest.xml", raw)
